@@ -1,13 +1,13 @@
 SPECIFICATION Spec
 CONSTANTS
   Alpha = {0, 1}
-  Scope = "quick"
-  MaxInp = 7
+  Scope = "thorough"
+  MaxInp = 8
   MaxWrite = 3
   Variant = "code"
   EmitOps = TRUE
-  Backward = FALSE
-  EmitEvery = 1
+  Backward = TRUE
+  EmitEvery = 300
 INVARIANT Inv
 PROPERTY Refines
 ACTION_CONSTRAINT Emit
